@@ -32,6 +32,7 @@ def step (line : String) : String :=
   | "rqcut" :: rest => Driver.ReqClient.runCut rest
   | "rqreuse" :: rest => Driver.ReqClient.runReuse rest
   | "rqstall" :: rest => Driver.ReqClient.runStall rest
+  | "rqlate" :: rest => Driver.ReqClient.runLate rest
   | "ppraw" :: rest => Driver.SubClient.run rest
   | "rp" :: rest => Driver.Replier.run rest
   | "pp" :: rest => Driver.PubClient.run rest
